@@ -186,6 +186,13 @@ public:
     constexpr auto swap(tuple& other) noexcept((is_nothrow_swappable_v<Ts> && ...)) -> void { _impl.swap(other._impl); }
 };
 
+template <>
+struct tuple<> {
+    constexpr tuple() noexcept = default;
+
+    constexpr auto swap(tuple& /*other*/) noexcept -> void { }
+};
+
 template <etl::size_t I, typename... Ts>
 struct tuple_element<I, tuple<Ts...>> {
     static_assert(I < sizeof...(Ts));
@@ -231,7 +238,7 @@ template <typename... Ts, typename... Us>
 [[nodiscard]] constexpr auto operator==(tuple<Ts...> const& lhs, tuple<Us...> const& rhs) -> bool
 {
     if constexpr (sizeof...(Ts) == 0) {
-        return false;
+        return true;
     } else {
         return [&]<etl::size_t... Is>(etl::index_sequence<Is...> /*i*/) {
             using etl::get;
